@@ -132,10 +132,14 @@ func nextCase() int { c19case++; return c19case }
 // Head() with its network request in flight while gossip delivers (and stores) the very header the request will
 // answer: afterwards nothing may stay pending, the subjective head is the store head, and a stale gossip header
 // below it is refused.
-func c19HeadRace(storeTo, extra int) {
+func c19HeadRace(storeTo, extra int) { c19HeadRaceLag(storeTo, extra, 1, 1) }
+
+// c19HeadRaceLag: the in-flight request is answered with storeTo+ans only after gossip has delivered
+// storeTo+1 .. storeTo+before (ans <= before: a lagging peer answers late).
+func c19HeadRaceLag(storeTo, extra, ans, before int) {
 	ctx := context.Background()
 	run := newC19(storeTo, 2*time.Hour, 600*time.Second)
-	run.a2 = fmt.Sprintf("ok:%d", storeTo+1)
+	run.a2 = fmt.Sprintf("ok:%d", storeTo+ans)
 	run.g.headGate = make(chan struct{})
 	done := make(chan string, 1)
 	go func() {
@@ -148,9 +152,12 @@ func c19HeadRace(storeTo, extra int) {
 	}()
 	time.Sleep(20 * time.Millisecond) // the request is in flight
 	arr := "ok"
-	if err := run.s.VerifIncomingNetworkHead(ctx, run.chain[storeTo]); err != nil {
-		arr = "err"
+	for h := storeTo + 1; h <= storeTo+before; h++ {
+		if err := run.s.VerifIncomingNetworkHead(ctx, run.chain[h-1]); err != nil {
+			arr = "err"
+		}
 	}
+	mid := "-"
 	close(run.g.headGate)
 	res := "hang"
 	select {
@@ -158,7 +165,7 @@ func c19HeadRace(storeTo, extra int) {
 	case <-time.After(2 * time.Second):
 	}
 	// the chain keeps growing by gossip
-	for h := storeTo + 2; h <= storeTo+1+extra && h <= c19N; h++ {
+	for h := storeTo + before + 1; h <= storeTo+before+extra && h <= c19N; h++ {
 		_ = run.s.VerifIncomingNetworkHead(ctx, run.chain[h-1])
 	}
 	time.Sleep(20 * time.Millisecond)
@@ -178,13 +185,50 @@ func c19HeadRace(storeTo, extra int) {
 		ps = "-"
 	}
 	// a stale forged header at a height the store already holds
-	c := run.chain[storeTo+1]
+	c := run.chain[storeTo]
 	stale := &vhdr.Header{Chain: c.Chain, H: c.H, T: c.T, Prev: c.Prev, Salt: 6}
 	sv := "refuse"
 	if err := run.s.VerifIncomingNetworkHead(ctx, stale); err == nil {
 		sv = "accept"
 	}
-	emit("C19 kind=headrace store=%d extra=%d => head=%s arrive=%s subj=%d pending=%s stale=%s", storeTo, extra, res, arr, subj, ps, sv)
+	emit("C19 kind=headrace store=%d extra=%d ans=%d before=%d => head=%s mid=%s arrive=%s subj=%d pending=%s stale=%s", storeTo, extra, ans, before, res, mid, arr, subj, ps, sv)
+}
+
+// c19HeadRaceStale: caller A's head request (stale subjective head) is still in flight when gossip delivers the
+// recent tip; caller B is then served the tip without network; finally A's request fails / brings nothing new.
+// Heights returned by Head() never decrease: A must not report less than B already got.
+func c19HeadRaceStale(storeTo int, answer string) {
+	ctx := context.Background()
+	run := newC19(storeTo, 2*time.Hour, 600*time.Second)
+	run.a2 = answer
+	run.g.headGate = make(chan struct{})
+	done := make(chan string, 1)
+	go func() {
+		h, err := run.s.Head(ctx)
+		if err != nil || h == nil {
+			done <- "err"
+			return
+		}
+		done <- utoa(h.H)
+	}()
+	time.Sleep(20 * time.Millisecond) // A's request is in flight
+	arr := "ok"
+	if err := run.s.VerifIncomingNetworkHead(ctx, run.chain[c19N-1]); err != nil {
+		arr = "err"
+	}
+	b := "err"
+	bctx, cancel := context.WithTimeout(ctx, time.Second)
+	if h, err := run.s.Head(bctx); err == nil && h != nil {
+		b = utoa(h.H) // the tip is recent: no network needed
+	}
+	cancel()
+	close(run.g.headGate)
+	a := "hang"
+	select {
+	case a = <-done:
+	case <-time.After(4 * time.Second):
+	}
+	emit("C19 kind=headstale store=%d answer=%s => arrive=%s b=%s a=%s", storeTo, answer, arr, b, a)
 }
 
 // concurrent callers share one head request and its result
@@ -284,5 +328,10 @@ func runC19(tier string, r *rng) {
 		c19Flight(n, "softbad:44", "") // the shared answer is a soft-failing forged head: nobody may adopt it
 		c19Flight(n, "softnopath:44", "")
 		c19HeadRace(20, 2*n)
+		c19HeadRaceLag(20, n, 2, 5)
+		c19HeadRaceLag(20, 0, 3, 6)
+	}
+	for _, ans := range []string{"fail", "ok:20", "ok:15", "ok:40"} {
+		c19HeadRaceStale(20, ans)
 	}
 }
